@@ -482,8 +482,16 @@ func (crashEngine) Execute(p *Plan) *RunResult {
 		// enumerate candidate points
 		var pts []crashPoint
 		for k := 0; k <= len(j); k++ {
-			if k > 0 && k < len(j) && !powerLoss && (j[k-1].Kind == JSync || j[k-1].Kind == JLock) {
-				continue // same image as the previous point
+			if !powerLoss && !isPL && k < len(j) && (j[k].Kind == JSync || j[k].Kind == JLock) {
+				// A sync or lock call in flight changes nothing a process crash can see: the image equals
+				// the one of point k+1. Keep k+1: its oracle is the same or stricter (when k is the last
+				// FS call of its API call, that call is acknowledged at k+1 and merely in flight at k).
+				continue
+			}
+			if !powerLoss && isPL && k > 0 && k < len(j) && (j[k-1].Kind == JSync || j[k-1].Kind == JLock) {
+				// chains that go on to a power loss: same visible image as the previous point; keep the
+				// one with the sync still in flight (more volatile state for the next epoch)
+				continue
 			}
 			pts = append(pts, crashPoint{k: k})
 			if k < len(j) && j[k].Kind == JWrite {
